@@ -484,6 +484,7 @@ class TransactionOutput(CBORSerializable):
                     output.amount,
                     datum_hash=datum,
                     script=output.script,
+                    post_alonzo=output.script is None,
                 )
             else:
                 return cls(
@@ -491,6 +492,7 @@ class TransactionOutput(CBORSerializable):
                     output.amount,
                     datum=datum,
                     script=output.script,
+                    post_alonzo=datum is None and output.script is None,
                 )
 
 
